@@ -71,10 +71,10 @@ impl Scenario for C07 {
   fn generate(&self, rng: &mut Rng, _tier: Tier) -> Value {
     let op = match rng.below(8) {
       0 | 1 => MOp::ObserveOn,
-      2 | 3 => MOp::Delay(*rng.pick(&[0u32, 3, 10, 50, 200])),
-      4 => MOp::DelayAt(*rng.pick(&[-5i32, 0, 1, 5, 20])),
-      5 => MOp::DelaySubscription(*rng.pick(&[0u32, 3, 10, 50, 200])),
-      6 => MOp::DelaySubscriptionAt(*rng.pick(&[-5i32, 0, 1, 5, 20])),
+      2 | 3 => MOp::Delay(*rng.pick(&[0u32, 3, 10, 50, 200, 200, 12_000, 20_005])),
+      4 => MOp::DelayAt(*rng.pick(&[-5i32, 0, 1, 5, 20, 20, 1000, 1200, 2001])),
+      5 => MOp::DelaySubscription(*rng.pick(&[0u32, 3, 10, 50, 200, 200, 12_000, 20_005])),
+      6 => MOp::DelaySubscriptionAt(*rng.pick(&[-5i32, 0, 1, 5, 20, 20, 1000, 1200, 2001])),
       _ => MOp::SubscribeOn,
     };
     let sub_like = matches!(op, MOp::DelaySubscription(_) | MOp::DelaySubscriptionAt(_) | MOp::SubscribeOn);
@@ -88,7 +88,7 @@ impl Scenario for C07 {
         1 => Act::Complete,
         2 => Act::Error,
         3 => Act::Run(rng.below(5) as u16),
-        4 => Act::Advance(*rng.pick(&[1u32, 3, 7, 30])),
+        4 => Act::Advance(*rng.pick(&[1u32, 3, 7, 30, 30, 1000])),
         _ => Act::AdvanceNext,
       });
     }
